@@ -184,6 +184,8 @@ fn run_c01(run: &mut Run) {
     run.min_nontrivial = 50;
     run.literals("literals", &literal_words(literal_libs().len()), &c01_literal);
     run.explore("roundtrip", run.tier.pick(400_000, 6_000_000), 1500, &c01_case);
+    // the same, each case in a thread of its own (per-thread state of the code starts from scratch)
+    run.explore_fresh("roundtrip", run.tier.pick(3_000, 40_000), 1500, &c01_case);
 }
 fn case_c01(sub: &str) -> Option<Box<CaseFn<'static>>> {
     match sub {
@@ -280,6 +282,8 @@ fn run_c02(run: &mut Run) {
     run.min_nontrivial = 50;
     run.literals("literals", &literal_words(literal_libs().len()), &c02_literal);
     run.explore("wellformed", run.tier.pick(400_000, 6_000_000), 1500, &c02_case);
+    // the same, each case in a thread of its own (per-thread state of the code starts from scratch)
+    run.explore_fresh("wellformed", run.tier.pick(3_000, 40_000), 1500, &c02_case);
 }
 fn case_c02(sub: &str) -> Option<Box<CaseFn<'static>>> {
     match sub {
@@ -370,6 +374,8 @@ fn run_c03(run: &mut Run) {
     run.min_nontrivial = 50;
     run.literals("literals", &literal_words(literal_libs().len()), &c03_literal);
     run.explore("conformant", run.tier.pick(400_000, 6_000_000), 1500, &c03_case);
+    // the same, each case in a thread of its own (per-thread state of the code starts from scratch)
+    run.explore_fresh("conformant", run.tier.pick(3_000, 40_000), 1500, &c03_case);
 }
 fn case_c03(sub: &str) -> Option<Box<CaseFn<'static>>> {
     match sub {
